@@ -16,7 +16,7 @@ import os
 import shutil
 import tempfile
 
-from sim import diskseam
+from sim import diskseam, invivo
 from sim.canon import canon, canon_json as cjson, tokens
 from sim.core import canon_json, digest_hex, h64, scratch_root
 from checks import c15_families as F
@@ -40,12 +40,12 @@ ASSUMPTIONS = [
     "restart after an incomplete export (saves after the last export, or bundles newer than the index): only 'no wrong data' is required",
     "faults are never silent: a failed write raises OSError and leaves an empty or torn file; a failed read raises OSError",
 ]
-PROBES = ["resave_then_get", "get_after_eviction", "get_from_disk", "save_crossed_max_rows", "resave_exported_item",
+PROBES = ["invivo_pipeline_reads_checked", "invivo_restored_items_checked", "resave_then_get", "get_from_disk", "save_crossed_max_rows", "resave_exported_item",
           "restart_clean", "restart_unclean", "multi_bundle", "item_cache_evicted", "bundle_cache_evicted",
           "absent_read", "fault_write_enospc", "fault_write_torn", "fault_read_eio", "fault_reported",
           "read_after_fault_ok", "restart_after_fault", "dict_restore"]
 TIERS = {
-    "quick": {"runs": 9000, "budget_s": 240, "chunk": 150, "selftest": 96, "per_run_timeout": 180},
+    "quick": {"runs": 8000, "budget_s": 240, "chunk": 100, "selftest": 96, "per_run_timeout": 180},
     "thorough": {"runs": 0, "budget_s": 1200, "chunk": 600, "selftest": 300, "per_run_timeout": 180},
 }
 MIN_SECONDS = 25.0
@@ -65,6 +65,7 @@ def setup_worker():
     from lian.config import config
     from lian.util.data_model import DataModel
     _config, _DM = config, DataModel
+    invivo.worker_setup()          # imports the whole pipeline (world B) BEFORE the feather seam is installed
     diskseam.install()
     _root = os.path.join(scratch_root(), f"c15-{os.getpid()}")
     os.makedirs(_root, exist_ok=True)
@@ -72,8 +73,12 @@ def setup_worker():
 
 # ----------------------------------------------------------------------------- generator
 
+P_INVIVO = {"quick": 0.004, "thorough": 0.015}
+
+
 def gen_knobs(rng, tier):
-    fams = F.general_families() if F.GENERAL else None
+    if rng.random() < P_INVIVO.get(tier, 0.006):
+        return {"population": "invivo", "family": "invivo"}
     names = sorted(FAMILY_NAMES)
     fam = rng.choice(names)
     key_kind = "cs" if fam == "callee_parameter_mapping" else rng.choice(["int", "int", "hash"])
@@ -106,7 +111,9 @@ FAMILY_NAMES = ["unit_gir", "scope_hierarchy", "unit_export_symbols", "class_id_
 
 
 def generate(rng, k):
-    fam = F.general_families()[k["family"]] if F.GENERAL or True else None
+    if k["population"] == "invivo":
+        return invivo.gen_invivo_ops(rng)
+    fam = F.general_families()[k["family"]]
     n_ids = len(k["ids"])
     ops = []
     saved = []          # ids saved so far (bias only)
@@ -125,7 +132,7 @@ def generate(rng, k):
                 i = rng.randrange(n_ids)
             n_saves += 1
             tok = 1000 * n_saves
-            size = rng.randint(1, k["max_size"])
+            size = rng.randint(1, k["max_size"]) if rng.random() > 0.08 else 0      # sometimes an item without any row
             op = {"op": "save", "id": i, "tok": tok, "desc": fam.gen(rng, tok, size)}
             if i not in saved:
                 saved.append(i)
@@ -190,8 +197,56 @@ def _classify(res_json, i, M):
     return "corrupt_read"
 
 
+def execute_invivo(trace):
+    """world B: the items produced by real analyses, read back by the pipeline itself and by a fresh Loader.restore()."""
+    from sim.core import load_known
+    out, rep = invivo.run_ops(trace["ops"])
+    st = rep.get("stats", {})
+    probes = {}
+    if st.get("c15_reads_checked"):
+        probes["invivo_pipeline_reads_checked"] = st["c15_reads_checked"]
+    if st.get("c15_restore_checked"):
+        probes["invivo_restored_items_checked"] = st["c15_restore_checked"]
+    if st.get("c15_dict_attrs_checked"):
+        probes["dict_restore"] = st["c15_dict_attrs_checked"]
+    violation = None
+    known = load_known(PID)
+    cands = []
+    for v in rep.get("c15", []):
+        sig = invivo_signature(v)
+        cands.append((sig in known, sig, v))
+    cands.sort(key=lambda c: (c[0], c[1]))          # unknown signatures first: a known finding never masks a new one
+    if cands:
+        pick = 0
+        if cands[0][0]:
+            # only listed findings in this run: rotate so that every listed finding gets reported across a batch
+            sigs = sorted({c[1] for c in cands})
+            want = sigs[int(trace.get("seed", 0)) % len(sigs)]
+            pick = next(i for i, c in enumerate(cands) if c[1] == want)
+        _, sig, v = cands[pick]
+        violation = {"step": len(trace["ops"]) - 1, "cls": "invivo:" + v["cls"], "detail": dict(v, signature=sig, run_status=out.get("status"),
+                                                                                               other_signatures=sorted({c[1] for c in cands[1:]})[:10])}
+    status = out.get("status", "?")
+    log = [status, out.get("detail", ""), sorted(invivo_signature(v) for v in rep.get("c15", [])),
+           st.get("c15_saves"), st.get("c15_reads_checked"), st.get("c15_restore_checked")]
+    return {"violation": violation, "probes": probes, "faults": {}, "states": set(), "trans": set(),
+            "steps": st.get("c15_saves", 0) + st.get("c15_reads_checked", 0), "log": digest_hex(log),
+            "outcome": "invivo:" + status.split(":")[0],
+            "extra": {"family:invivo": 1, "invivo_saves": st.get("c15_saves", 0), "invivo_monitor_errors": st.get("c15_monitor_errors", 0)}}
+
+
+def invivo_signature(v):
+    if v.get("family") == "StateFlowGraphLoader":
+        return "invivo|state_flow_graph|unserialisable_item"
+    if v["cls"] == "dict_restore_mismatch":
+        return f"invivo|dict_restore_mismatch|{v.get('loader')}|{v.get('id')}"
+    return f"invivo|{v['cls']}|{v.get('family')}|{v.get('phase')}"
+
+
 def execute(trace):
     k = trace["knobs"]
+    if k["population"] == "invivo":
+        return execute_invivo(trace)
     fam = F.general_families()[k["family"]]
     keys = [F.key_of(kd) for kd in k["ids"]]
     faulted_pop = k["population"] == "faulted"
@@ -245,7 +300,10 @@ def execute(trace):
             return {"step": step, "cls": "read_failed", "detail": {"op": op, "id": i, "phase": phase,
                                                                   "error": f"{type(err).__name__}: {str(err)[:300]}",
                                                                   "output": out[-300:]}}
-        empty = res is None or (isinstance(res, (list, dict, set)) and len(res) == 0 and not hasattr(res, "space"))
+        # no content at all: None, or an empty list / map / table / space / manager (every generated row carries a token)
+        empty = res is None or not tokens(canon(res))
+        if i in M["latest"] and empty and res is not None and cjson(res) == M["latest"][i]:
+            empty = False          # the item was saved without any content and comes back exactly like that
         if i not in M["latest"]:
             if empty:
                 hit("absent_read")
@@ -511,12 +569,16 @@ def _pattern(ops):
 
 
 def presignature(trace, violation):
+    if violation["cls"].startswith("invivo:"):
+        return violation["detail"].get("signature")
     if violation["cls"] == "unserialisable_item":
         return f"{trace['knobs']['family']}|unserialisable_item"
     return None
 
 
 def signature(trace, violation):
+    if violation["cls"].startswith("invivo:"):
+        return violation["detail"].get("signature")
     if violation["cls"] == "unserialisable_item":
         return f"{trace['knobs']['family']}|unserialisable_item"
     return f"{trace['knobs']['family']}|{violation['cls']}|{_pattern(trace['ops'])}"
@@ -525,6 +587,14 @@ def signature(trace, violation):
 def simplify(trace):
     k = trace["knobs"]
     ops = trace["ops"]
+    if k["population"] == "invivo":
+        for i, op in enumerate(ops):
+            if op["op"] == "run":
+                if op.get("flags"):
+                    yield dict(trace, ops=ops[:i] + [dict(op, flags=[])] + ops[i + 1:])
+                if op.get("max_rows") != 400000:
+                    yield dict(trace, ops=ops[:i] + [dict(op, max_rows=400000)] + ops[i + 1:])
+        return
     # fewer rows per saved item, drop fault annotations, larger caches / row limit (simpler configuration)
     for i, op in enumerate(ops):
         if op["op"] == "save" and len(op["desc"].get("rows", [])) > 1:
